@@ -1249,6 +1249,10 @@ func (m *Nitro) LoadFromDisk(dir string, concurr int, callb ItemCallback) (*Snap
 
 				for shard := range wchan {
 					r := readers[shard]
+					// Read the whole shard and verify it before any item is
+					// handed to the key comparator: a damaged item must be
+					// reported as corruption, not fed to user code.
+					var itms []*Item
 				loop:
 					for {
 						itm, err := r.ReadItem()
@@ -1260,8 +1264,23 @@ func (m *Nitro) LoadFromDisk(dir string, concurr int, callb ItemCallback) (*Snap
 						if itm == nil {
 							break loop
 						}
+						itms = append(itms, itm)
+					}
 
-						w := writers[id]
+					if errors[shard] == nil && verifyDeltaChecksums &&
+						deltaChecksums[shard] != r.Checksum() {
+						errors[shard] = ErrCorruptSnapshot
+					}
+
+					w := writers[id]
+					if errors[shard] != nil {
+						for _, itm := range itms {
+							w.freeItem(itm)
+						}
+						continue
+					}
+
+					for _, itm := range itms {
 						if n, success := w.store.Insert2(unsafe.Pointer(itm),
 							w.insCmp, w.existCmp, w.buf, w.rand.Float32, &w.slSts1); success {
 
